@@ -256,6 +256,30 @@ def run(prop: str, tier: str, seed: int) -> int:
                     R.known(k)
         else:
             R.engine_errors.append("known-finding replay failed: " + p.stderr[-300:])
+    # ---------------- engine guards: canaries and concolic cross-check against CPython
+    canaries = [ob for r in reps for ob in r.get("obligations", []) if ob["prop"] == "ENGINE" and ob["clause"].startswith("canary")]
+    for ob in canaries:
+        if ob["status"] != "proved":
+            R.engine_errors.append("canary failed: a deliberately false obligation was proved (" + ob.get("detail", "") + ")")
+    vacuous = sum(1 for r in reps for ob in r.get("obligations", []) if ob["prop"] == "ENGINE" and ob["clause"].startswith("vacuous"))
+    conc = [r["concolic"] for r in reps if r.get("concolic")]
+    validated = 0
+    mismatches = []
+    if conc:
+        p = run_venv("rules_tierb.py", ["replay-stdin"], stdin=json.dumps(conc), timeout=1200)
+        if p.returncode == 0:
+            try:
+                for w, o in zip(conc, json.loads(p.stdout)):
+                    if not o.get("realised"):
+                        continue
+                    if o.get("applicable") is not True:
+                        mismatches.append(f"{w['rule']}: engine says applicable, CPython says not, on `{o.get('input')}` at `{o.get('node')}`")
+                    else:
+                        validated += 1
+            except json.JSONDecodeError:
+                pass
+    for mm in mismatches[:5]:
+        R.engine_errors.append("concolic mismatch: " + mm)
     # ---------------- vacuity guards
     if n_obl == 0:
         R.engine_errors.append("no obligations generated")
@@ -281,6 +305,9 @@ def run(prop: str, tier: str, seed: int) -> int:
         "applicable_paths_per_configuration": dict(per_cfg_app),
         "functions_under_contract": FUNCTIONS,
         "samples": samples,
+        "traces_validated_against_impl": validated,
+        "canaries_refuted": len([c for c in canaries if c["status"] == "proved"]),
+        "vacuous_paths_never_both_defined": vacuous,
         "bounded": {
             "what": "every tree of the scope x every node x 11 rule configurations applied on a clone, contract checked at run time on the real code (not counted as proved)",
             "scope": sweep.get("scope"),
